@@ -2,7 +2,12 @@
    Nothing here depends on the concrete window size or on which spellings the generated list contains, except
    the lemmas marked "table": those are re-checked by computation against the regenerated tables. *)
 From JV Require Import Base.Bytes Base.Dec Proofs.BytesFacts Proofs.DecFacts Gen.HttpGateGen Gen.SniffGen Model.HttpGate.
-Arguments N.add N.sub N.mul N.ltb N.leb N.eqb : simpl never.
+Arguments N.add : simpl never.
+Arguments N.sub : simpl never.
+Arguments N.mul : simpl never.
+Arguments N.ltb : simpl never.
+Arguments N.leb : simpl never.
+Arguments N.eqb : simpl never.
 
 (* ------------------------------------------------------------------ the gate *)
 
@@ -197,7 +202,7 @@ Proof.
   - rewrite blen_app in Hl.
     destruct (N.ltb_spec rem (blen d)); [lia|].
     unfold on_data. rewrite Hs.
-    rewrite (IH _ _ b); cbn [is_single received]; [rewrite app_assoc; reflexivity | exact Hs | lia].
+    rewrite (IH _ _ b); cbn [is_single received]; [rewrite app_assoc; reflexivity | first [exact Hs | reflexivity] | lia].
   - apply IH; assumption.
 Qed.
 
@@ -219,7 +224,7 @@ Proof.
       * destruct (Byte.eqb c http_batch_byte); [|reflexivity].
         rewrite (read_frames_sniffed fs _ _ false); [reflexivity | reflexivity | lia].
     + destruct (Nat.ltb_spec (sniffed s + length d) http_sniff_window) as [Hlt|Hge].
-      * rewrite IH; cbn [is_single received sniffed]; [| reflexivity | exact Hr | lia].
+      * rewrite IH; cbn [is_single received sniffed]; [| reflexivity | first [exact Hr | reflexivity] | lia].
         unfold whole. rewrite (sniff_app_none _ d (payload fs) Hf) by lia.
         replace (http_sniff_window - sniffed s - length d)%nat with (http_sniff_window - (sniffed s + length d))%nat by lia.
         reflexivity.
@@ -331,8 +336,8 @@ Proof.
   intro H. apply content_type_is_json_spec. unfold ct_accepted. cbn [hd_error].
   unfold property_spellings in H.
   repeat (destruct H as [H | H];
-          [ exists v; eexists; split; [reflexivity|]; split;
-            [ | rewrite <- H; vm_compute; reflexivity ]; vm_compute; tauto | ]).
+          [ exists v, (map ascii_lower v); split; [reflexivity|]; rewrite <- H; split;
+            [ vm_compute; auto 10 | vm_compute; reflexivity ] | ]).
   destruct H.
 Qed.
 
@@ -348,7 +353,8 @@ Proof.
   rewrite (spelling_irrelevant A rpc POST cts1 cts2 cls1 fs1 max Hc1 Hc2).
   unfold call_with_service, call_with_service_with. destruct (gate POST cts2); try reflexivity.
   rewrite (content_length_irrelevant cls1 fs1 max Hl Hl1).
-  rewrite (content_length_irrelevant cls2 fs2 max) by (try rewrite <- Hp; assumption).
+  assert (Hl' : (blen (payload fs2) <= max)%N) by (rewrite <- Hp; exact Hl).
+  rewrite (content_length_irrelevant cls2 fs2 max Hl' Hl2).
   rewrite (same_payload_same_result [] fs1 fs2 max Hp Hl). reflexivity.
 Qed.
 
